@@ -53,7 +53,11 @@ Section E.
 
   Lemma apply_commit_effects E w t :
     apply_effects w (commit_effects E w t) = record_states E w t.
-  Proof. unfold commit_effects, record_states. apply apply_commits_gen. Qed.
+  Proof.
+    unfold commit_effects, record_states. cbn [apply_effects fold_left apply_effect].
+    change (fold_left apply_effect ?l ?x) with (apply_effects x l).
+    rewrite apply_commits_gen. reflexivity.
+  Qed.
 
   Lemma apply_report w t o : apply_effects w [EReport t o] = w.
   Proof. reflexivity. Qed.
@@ -77,7 +81,7 @@ Section E.
      in the effects of one task no write follows a commit, and commits appear only for
      SUCCESS (all products exist) and PERSISTENCE (all nodes exist) *)
   Definition is_write (e : effect) : bool := match e with EWrite _ _ => true | _ => false end.
-  Definition is_commit (e : effect) : bool := match e with ECommit _ _ _ => true | _ => false end.
+  Definition is_commit (e : effect) : bool := match e with ECommit _ _ _ | EPurge _ _ => true | _ => false end.
 
   Lemma write_effects_all_writes w t f : forallb is_write (write_effects body w t f) = true.
   Proof.
